@@ -204,6 +204,13 @@ def walk_ldf(ctx, ru, Links, v, start, w, h, dst, where):
     # distinct link axes), so runs correspond to dimensions
     check([n for _, n in runs] == mags, "ldf-not-longest-first",
           "runs %r for vector %r" % (runs, v), **where)
+    # the walk handed back is the caller's to keep and to edit (legs are
+    # stitched together with += and the like): what the caller does to it
+    # may not show in the answer to any later question
+    if isinstance(p, list):
+        p.extend([("stitched-on", (-7, -7))] * 3)
+        p.reverse()
+        ctx.hit("returned_walk_edited")
 
 
 def torus_formula(x, y, w, h):
